@@ -258,6 +258,12 @@ func VerifHarness_C14_gate() {
 	verifrt.Assert(!m.pParent, "c14-gate-no-dotdot-posix")
 	verifrt.Assert(!m.nParent, "c14-gate-no-dotdot-ntfs")
 	verifrt.Assert(!m.hParent, "c14-gate-no-dotdot-hfs")
+	// the reflog of the name is kept at "logs/<name>"
+	lbs := append([]byte(logsPath+"/"), bs...)
+	lfree := append(make([]bool, len(logsPath)+1), free...)
+	lm := verifC14Resolve(lbs, lfree)
+	verifrt.Assert(verifrt.Or(verifC14HasPrefix(lbs, "logs/refs/"), verifC14Pseudo(bs)), "c14-gate-reflog-slot")
+	verifrt.Assert(!verifrt.Or(lm.pParent, verifrt.Or(lm.nParent, lm.hParent)), "c14-gate-reflog-no-dotdot")
 	verifrt.Assert(!m.pSelf, "c14-gate-no-dot-posix")
 	verifrt.Known("C14-dot-disguise-accepted", verifrt.And(m.nSelf, !m.pSelf))
 	verifrt.Assert(!m.nSelf, "c14-gate-no-dot-ntfs")
